@@ -540,10 +540,24 @@ func exec(line string) hx.Result {
 		ks = append(ks, k)
 	}
 	sort.Strings(ks)
-	res.Kind = strings.Join(ks, "+")
-	if diverged {
-		res.Kind += " DIVERGED"
+	// histogram bucket: did the nodes agree, and was a signature set outside C17's canonical class involved
+	noncanon := false
+	for _, op := range strings.Split(f[1], ";") {
+		for _, fld := range strings.Split(op, ":") {
+			if i, sh, ok := parseSigner(fld); ok && (sh != "c" || i == 3) {
+				noncanon = true
+			}
+		}
 	}
+	switch {
+	case diverged:
+		res.Kind = "diverged:" + strings.TrimPrefix(res.Class, "state-divergence:")
+	case noncanon:
+		res.Kind = "agree:non-canonical-script-present-but-its-witness-unused"
+	default:
+		res.Kind = "agree:all-canonical"
+	}
+	_ = ks
 	h := sha256.Sum256([]byte(f[1]))
 	res.Key = hex.EncodeToString(h[:6])
 	return res
